@@ -22,14 +22,13 @@
      node_ok dec u2s n                       all of the above at every node of the tree [n];
      elems_at abs elems                      BIOS-region elements carry the running offset.
 
-   Two things the code does NOT guarantee, so the theorems do not claim them (see the notes in
-   props/C04.json): (1) a section may be shorter than its own header (size 1..3, or 1..7 with the
-   extended-size marker) and a file shorter than 24/32 bytes; such a node is accepted, its fields
-   are then the decode of the parent's bytes at the node's offset ([C04_section_buf],
-   [C04_file_buf]) but lie partly outside the node's own buffer, which is why [sec_fields] and
-   [file_fields] are conditional on [4 <= ext], [8 <= ext], [24 <= ext], [32 <= ext];
-   (2) the block map of a volume is read from the data following offset 56 without regard to
-   [Length]/[HeaderLen] ([vol_hdr_from] does not mention [v_blocks]).
+   A node is never shorter than its own header ([s_hlen h <= s_ext h], [f_dataoff h <= f_ext h]):
+   this is what the fixes 7046392 (NewSection) and 0617fce (NewFile) established; before them a
+   section of size 1..3 (1..7 with the extended-size marker) or a file of size 1..23 (1..31) was
+   accepted, its header reached into the next sibling and the field equalities below were false.
+   One thing the code does NOT guarantee, so the theorems do not claim it: the block map of a
+   volume is read from the data following offset 56 without regard to [Length]/[HeaderLen]
+   ([vol_hdr_from] does not mention [v_blocks]).
 
    The ReadOnly/aliasing half of C04 ("the tree does not depend on copy vs alias mode, the
    caller's buffer is not modified") cannot be expressed in a value model: both modes denote the
@@ -39,13 +38,14 @@ From Fiano Require Import Base.Bytes Model.Ffs Proofs.FfsParseProofs Proofs.FfsE
 Open Scope Z_scope.
 
 (* a section node holds exactly the first [s_ext] bytes of the buffer it was parsed from, lies
-   inside it, and its common header fields are the decode of those bytes *)
+   inside it, contains its whole header, and its common header fields are the decode of those
+   bytes (no hypothesis on the input at all) *)
 Theorem C04_section_buf : forall dec u2s nvar d pol buf i n pol',
   parse_section dec u2s nvar d pol buf i = Ok (n, pol') ->
   exists h kids, n = NSec h (sub 0 (s_ext h) buf) kids /\
-    s_ext h <= zlen buf /\ 4 <= zlen buf /\
+    s_hlen h <= s_ext h <= zlen buf /\
     s_size3 h = rd 0 3 buf /\ s_type h = rd 3 1 buf /\
-    (s_hlen h = 4 \/ (s_hlen h = 8 /\ 8 <= zlen buf /\ s_ext h = rd 4 4 buf)).
+    (s_hlen h = 4 \/ (s_hlen h = 8 /\ s_ext h = rd 4 4 buf)).
 Proof. exact section_buf. Qed.
 Print Assumptions C04_section_buf.
 
@@ -62,9 +62,9 @@ Print Assumptions C04_section_fields.
 Theorem C04_file_buf : forall dec u2s nvar d pol buf n pol',
   parse_file dec u2s nvar d pol buf = Ok (Some n, pol') ->
   exists h kids, n = NFile h (sub 0 (f_ext h) buf) kids /\
-    f_ext h <= zlen buf /\ 24 <= zlen buf /\ file_hdr_from h buf /\
+    f_dataoff h <= f_ext h <= zlen buf /\ file_hdr_from h buf /\
     ((f_dataoff h = 24 /\ f_ext h = f_size3 h) \/
-     (f_dataoff h = 32 /\ f_size3 h = 16777215 /\ 32 <= zlen buf /\ f_ext h = rd 24 8 buf)).
+     (f_dataoff h = 32 /\ f_size3 h = 16777215 /\ f_ext h = rd 24 8 buf)).
 Proof. exact file_buf. Qed.
 Print Assumptions C04_file_buf.
 
